@@ -181,6 +181,7 @@ type StructInfo struct {
 }
 
 type World struct {
+	strAssoc bool
 	structs     map[string]*StructInfo // by sort name
 	structOrder []string
 	structByTyp map[string]*StructInfo // by type string
@@ -433,6 +434,20 @@ func (w *World) boxFns(t types.Type) (box, unbox string, tag int) {
 		"(assert (forall ((x %s)) (! (and (= (%s (%s x)) x) (= (itag (%s x)) %d)) :pattern ((%s x)))))\n"+
 		"(assert (forall ((i Iface)) (! (=> (= (itag i) %d) (= (%s (%s i)) i)) :pattern ((%s i)))))",
 		box, srt, unbox, srt, srt, unbox, box, box, tag, box, tag, box, unbox, unbox))
+	// iref: the reference an interface value carries (0 if it carries none); used to state
+	// that interface values only hold objects that already exist
+	w.declare("iref", "(declare-fun iref (Iface) Int)")
+	ref := "0"
+	switch types.Unalias(t).Underlying().(type) {
+	case *types.Pointer:
+		w.needRoot()
+		ref = "(root x)"
+	case *types.Map, *types.Chan:
+		ref = "x"
+	case *types.Slice:
+		ref = "(sbase x)"
+	}
+	w.declare("iref!"+box, fmt.Sprintf("(assert (forall ((x %s)) (! (= (iref (%s x)) %s) :pattern ((%s x)))))", srt, box, ref, box))
 	return
 }
 
@@ -441,6 +456,11 @@ func (w *World) boxFns(t types.Type) (box, unbox string, tag int) {
 func (w *World) prelude() string {
 	var b strings.Builder
 	b.WriteString(basePrelude)
+	if w.strAssoc {
+		// concatenation is associative (follows from extensionality); opt-in per function
+		// ("option strassoc") because the rewriting perturbs proofs that index into appends
+		b.WriteString("(assert (forall ((a Str) (b Str) (c Str)) (! (= (sconcat (sconcat a b) c) (sconcat a (sconcat b c))) :pattern ((sconcat (sconcat a b) c)))))\n")
+	}
 	names := make([]string, 0, len(w.tparamSorts))
 	for n := range w.tparamSorts {
 		names = append(names, n)
@@ -492,6 +512,7 @@ const basePrelude = `(declare-sort Str 0)
 (declare-fun sconcat (Str Str) Str)
 (assert (forall ((a Str) (b Str)) (! (= (slen (sconcat a b)) (+ (slen a) (slen b))) :pattern ((sconcat a b)))))
 (assert (forall ((a Str) (b Str) (i Int)) (! (= (sat (sconcat a b) i) (ite (< i (slen a)) (sat a i) (sat b (- i (slen a))))) :pattern ((sat (sconcat a b) i)))))
+(assert (forall ((a Str) (b Str)) (! (and (=> (= (slen b) 0) (= (sconcat a b) a)) (=> (= (slen a) 0) (= (sconcat a b) b))) :pattern ((sconcat a b)))))
 (declare-fun ssub (Str Int Int) Str)
 (assert (forall ((a Str) (lo Int) (hi Int)) (! (=> (and (<= 0 lo) (<= lo hi) (<= hi (slen a))) (= (slen (ssub a lo hi)) (- hi lo))) :pattern ((ssub a lo hi)))))
 (assert (forall ((a Str) (lo Int) (hi Int) (i Int)) (! (=> (and (<= 0 lo) (<= lo hi) (<= hi (slen a)) (<= 0 i) (< i (- hi lo))) (= (sat (ssub a lo hi) i) (sat a (+ lo i)))) :pattern ((sat (ssub a lo hi) i)))))
